@@ -178,6 +178,13 @@ fn parse(
 
 /// Parse `src` (JSX enabled), resolve, run the visitor under a capturing HANDLER, and hand the
 /// result to `f` while the syntax-context globals are still alive.
+/// Which stage the (single-job) worker process is in: a CPU-time watchdog that fires while the
+/// SWC parser is still running says nothing about the transform (the module has not been
+/// accepted yet).
+pub static PHASE: std::sync::atomic::AtomicU8 = std::sync::atomic::AtomicU8::new(0);
+pub const PHASE_PARSE: u8 = 1;
+pub const PHASE_TRANSFORM: u8 = 2;
+
 pub fn with_transform<R>(
     src: &str,
     lang: Lang,
@@ -191,7 +198,9 @@ pub fn with_transform<R>(
     GLOBALS.set(&Globals::new(), || {
         let cm: Lrc<SourceMap> = Default::default();
         let comments = SingleThreadedComments::default();
+        PHASE.store(PHASE_PARSE, std::sync::atomic::Ordering::Relaxed);
         let mut module = parse(&cm, src, lang.syntax(true), Some(&comments))?;
+        PHASE.store(PHASE_TRANSFORM, std::sync::atomic::Ordering::Relaxed);
         let unresolved_mark = Mark::new();
         let top_level_mark = Mark::new();
         module.visit_mut_with(&mut resolver(
